@@ -514,4 +514,20 @@ theorem writeFile_spec (L : Layout) (rs : List Bytes) (hL : L.Valid) (hbe : L.ti
   rw [o1, o0, ← tellsFrom_eq]
   simp [encode, ES.init]
 
+theorem writeFileOpen_spec (L : Layout) (rs : List Bytes) (hL : L.Valid) (hbe : L.tif ≠ .be)
+    (hb : ∀ r ∈ rs, BytesOK r) (hsz : L.tif = .le → fileSize L rs < 4294967296) :
+    writeFileOpen (L.tif != .off) L.prMax L.hasRec L.fileNum L.hasChk rs
+      = .ok (encodeN L rs 0, (List.range rs.length).map (tellOf L rs)) := by
+  obtain ⟨w0, e0, o0, i0⟩ := new_spec L hL
+  have hpos : (stAfterRecs L ES.init rs).pos = tellOf L rs rs.length := by
+    rw [stAfterRecs_pos]; simp [tellOf, ES.init]
+  have hbound : L.tif = .le → (stAfterRecs L ES.init rs).pos + 24 < 4294967296 := by
+    intro h; have := hsz h; unfold fileSize at this; rw [h] at this; rw [hpos]; simpa using this
+  obtain ⟨w1, e1, o1, _⟩ := writeAll_spec L hL hbe rs w0 ES.init (i0 hbe) hb (fun h => by have := hbound h; omega)
+  unfold writeFileOpen
+  rw [e0]; simp only []
+  rw [e1]; simp only []
+  rw [o1, o0, ← tellsFrom_eq]
+  simp [encodeN, eofMarkersN, ES.init]
+
 end TD.C05
